@@ -763,7 +763,44 @@ pub fn exec(v: &Value) -> Result<Value> {
 // ---------------------------------------------------------------------------------------------
 // generation of I2S inputs (never computes expectations)
 
+/// A list of pads, grows and jumps whose input form fills the method up to the last few bytes: the grows
+/// (2 bytes in the input, 3 in the output) decide whether the written method still fits.
+fn rnd_tight(r: &mut StdRng) -> Value {
+	let n = r.gen_range(3..=7usize);
+	let mut items: Vec<Value> = Vec::new();
+	let mut used: i64 = 0;
+	let big = r.gen_range(0..n);
+	for i in 0..n {
+		if i == big {
+			items.push(Value::Null);
+			continue;
+		}
+		let roll = r.gen_range(0..10);
+		let it = if roll < 4 {
+			used += 2;
+			json!({"k": "grow", "n": 3, "t": []})
+		} else if roll < 7 {
+			let sz = r.gen_range(1..9);
+			used += sz;
+			json!({"k": "pad", "n": sz, "t": []})
+		} else {
+			used += 3;
+			// a near target, so that the input holds the jump in its short form
+			let t = if i > big { r.gen_range(big + 2..=n).min(n) } else { r.gen_range(1..=big.max(1)) };
+			let k = ["if", "goto", "jsr"][r.gen_range(0..3)];
+			json!({"k": k, "n": 0, "t": [t]})
+		};
+		items.push(it);
+	}
+	let slack = r.gen_range(0..5);
+	items[big] = json!({"k": "pad", "n": 65535 - used - slack, "t": []});
+	Value::Array(items)
+}
+
 fn rnd_items(r: &mut StdRng) -> Value {
+	if r.gen_range(0..5) == 0 {
+		return rnd_tight(r);
+	}
 	let n = r.gen_range(2..=9usize);
 	// budget of bytes for big pads so that most lists stay within the limit
 	let mut budget: i64 = 65535 + r.gen_range(-40..12);
